@@ -15,7 +15,9 @@ from fake_net import CLI, OTH
 
 # 1: same host, other port; 2: other host, same port as the client; 3: other host and port;
 # 4: source port 0 (the fake socket's sendto to it fails with EINVAL, as the real one's does)
-ADDRS = {0: CLI, 1: OTH, 2: ("::2", 5555, 0, 0), 3: ("2001:db8::7", 4711, 0, 0), 4: ("2001:db8::9", 0, 0, 0)}
+# 5 / 6: the client's host and port with another scope id / flow info: other socket addresses, hence foreign
+ADDRS = {0: CLI, 1: OTH, 2: ("::2", 5555, 0, 0), 3: ("2001:db8::7", 4711, 0, 0), 4: ("2001:db8::9", 0, 0, 0),
+         5: (CLI[0], CLI[1], 0, 3), 6: (CLI[0], CLI[1], 9, 0)}
 ADDR_ID = {v: k for k, v in ADDRS.items()}
 TICKS = 1024
 
@@ -224,7 +226,7 @@ def coop_script(rng, wants, tmo_ticks, retries, fault_rate=0.5, t0=0):
             elif k < 0.6:
                 ev.append((t + dt, 0, ack(w + 1)))          # future
             elif k < 0.8:
-                ev.append((t + dt, rng.choice([1, 2, 3, 4]), ack(w)))   # foreign sender
+                ev.append((t + dt, rng.choice([1, 2, 3, 4, 5, 6]), ack(w)))   # foreign sender
             else:
                 ev.append((t + dt, 0, ack(w + 2)))
             t += dt
